@@ -34,6 +34,14 @@ type Case struct {
 	// or reads what an earlier iteration bound). The render may fail; IF it succeeds the output must be that of
 	// Alt: the same program with the condition's value written out, or with the silent construct erased.
 	Alt json.RawMessage `json:"alt,omitempty"`
+	// Strict (kind "assign"): Prog holds bare assignments `n = v` to names that are bound OUTSIDE the scope
+	// construct the assignment stands in (user function, partial, contentFor/contentOf block, block helper with
+	// its own context, or a for nested in one of those). The statement makes such a write the construct's own
+	// ("names set inside ... leave same-named outer variables unchanged"), so Prog must render, and render what
+	// Alt renders: the same program with each of these assignments written as `let n = v`. AltPartials are the
+	// partials of Alt.
+	Strict      bool                       `json:"strict,omitempty"`
+	AltPartials map[string]json.RawMessage `json:"alt_partials,omitempty"`
 }
 
 var names = []string{"x", "y", "v", "p", "k"}
@@ -71,6 +79,9 @@ type opts struct {
 	alt   []model.Node
 	again bool   // parse once, execute twice on fresh contexts
 	why   string // with alt: what alt is
+	// strict: alt is not an allowed alternative but THE reference (see Case.Strict); altParts are its partials
+	strict   bool
+	altParts map[string][]model.Node
 }
 
 var errTwoExecs = errors.New("two executions of one parsed template disagree")
@@ -88,6 +99,15 @@ func run(r *vk.Run, prog []model.Node, partials map[string][]model.Node, class s
 	if o.alt != nil {
 		c.Alt = model.Encode(o.alt)
 		kind = "alt"
+		if o.strict {
+			kind, c.Strict = "assign", true
+			for n, body := range o.altParts {
+				if c.AltPartials == nil {
+					c.AltPartials = map[string]json.RawMessage{}
+				}
+				c.AltPartials[n] = model.Encode(body)
+			}
+		}
 	}
 	ptext := map[string]string{}
 	var pnames []string
@@ -104,11 +124,14 @@ func run(r *vk.Run, prog []model.Node, partials map[string][]model.Node, class s
 	}
 	sort.Strings(pnames)
 	defer r.Watch(kind, c)()
-	ref := prog
+	ref, refParts := prog, partials
 	if o.alt != nil {
 		ref = o.alt
+		if o.strict && o.altParts != nil {
+			refParts = o.altParts
+		}
 	}
-	want := model.RunWith(ref, baseData(), helpers(), partials)
+	want := model.RunWith(ref, baseData(), helpers(), refParts)
 	if want.Unspec != "" || (o.alt != nil && want.Err != "") {
 		r.Exclude("unspecified")
 		return nil
@@ -177,7 +200,10 @@ func run(r *vk.Run, prog []model.Node, partials map[string][]model.Node, class s
 	if res.Panicked() {
 		return fail("%s", res)
 	}
-	if o.alt != nil {
+	if o.strict {
+		full += "\n  (reference: " + o.why + ")"
+	}
+	if o.alt != nil && !o.strict {
 		if res.Err != nil {
 			r.Class(o.why + ": the render failed (allowed)")
 			return nil
@@ -203,6 +229,28 @@ func run(r *vk.Run, prog []model.Node, partials map[string][]model.Node, class s
 		return fail("render failed: %v; reference output %q", res.Err, want.Out)
 	}
 	if !match.SameText(res.Out, want.Out) {
+		if o.strict {
+			// lead with the place where the two part: the template is long
+			i := 0
+			for i < len(res.Out) && i < len(want.Out) && res.Out[i] == want.Out[i] {
+				i++
+			}
+			from := strings.LastIndex(want.Out[:i], "[") // start of the probe that differs
+			if from < 0 {
+				from = i
+			}
+			win := func(s string) string {
+				if from >= len(s) {
+					return ""
+				}
+				if len(s) > from+40 {
+					return s[from:from+40] + "…"
+				}
+				return s[from:]
+			}
+			return &vk.Fail{Kind: kind, Case: c, Msg: fmt.Sprintf("a bare assignment in a scope of its own is not that scope's own: output parts from the reference at byte %d: got %q, reference %q; %s\n    output %q, reference says\n    %q",
+				i, win(res.Out), win(want.Out), full, res.Out, want.Out)}
+		}
 		return fail("output\n    %q, reference says\n    %q", res.Out, want.Out)
 	}
 	return nil
@@ -247,10 +295,14 @@ const (
 	spChain                     // inner shadowing lets read the binding they shadow: let x = x + "~L1"
 	spIfLet                     // a let inside an if block inside the scope, read after the scope has ended
 	spBare                      // partial("n") / contentOf("n") without the empty data hash
-	spAll     = spOuterFn | spAssign | spChain | spIfLet | spBare
+	spAll           = spOuterFn | spAssign | spChain | spIfLet | spBare
+	// spOuterAssign (not part of spAll; its oracle is the let-rewritten program, see outerAssign): inside every
+	// scope of its own a BARE assignment to names that are bound further out - by a let, by an outer construct
+	// (parameter / data key / loop variable), by the context data (g, len)
+	spOuterAssign spice = 1 << 5
 )
 
-var spiceNames = []string{"outer-fn", "assign", "chain-let", "if-let", "bare"}
+var spiceNames = []string{"outer-fn", "assign", "chain-let", "if-let", "bare", "outer-assign"}
 
 func (s spice) String() string {
 	if s == 0 {
@@ -272,6 +324,133 @@ type builder struct {
 	replay    bool         // a block of literal text stored at top level is replayed with contentOf at every deeper level, before that level's lets
 	sp        spice
 	letsFirst bool // every level lets its names before it reads anything (needed under a loop of two iterations that binds names)
+	// spOuterAssign
+	kinds     []int            // the whole nesting; level l > 0 is the body of kinds[l-1]
+	binds     []string         // the whole binding pattern
+	asLet     bool             // build the REFERENCE program: the outer assignments are written as let
+	skipAfter map[int][]string // level -> names not probed after that level's construct (a for under it wrote them: open)
+	nOuter    int              // outer assignments emitted
+}
+
+// ownScope: the construct runs its body in a scope of its own that is NOT the caller's frame continued: what is
+// set there is the construct's ("parameters and let-bound names inside a user-defined function, and names set
+// inside a partial or a contentOf/contentFor block with its own data ... leave same-named outer variables
+// unchanged"). The loops are left out: whether a bare assignment in a loop body directly under the binding frame
+// lands in the loop's scope or in the enclosing one is not said anywhere.
+func ownScope(kind int) bool {
+	switch kind {
+	case kFn, kPartial, kContent, kBlock, kFnReturn, kFnReturnIf, kFnTwoParams, kFnTwice, kFnRec,
+		kPartialVar, kContentDeflt, kPartialLay, kPartialHeld, kContentHeld, kPartialLoop:
+		return true
+	}
+	return false
+}
+
+var ownKinds = func() (ks []int) {
+	for k := 0; k < nKinds; k++ {
+		if ownScope(k) {
+			ks = append(ks, k)
+		}
+	}
+	return
+}()
+
+// set is the bare assignment n = x, or, in the reference program, let n = x
+func (b *builder) set(n string, x model.Expr) model.Node {
+	b.nOuter++
+	if b.asLet {
+		return letx(n, x)
+	}
+	return model.Code{S: model.AssignS{Name: n, X: x}}
+}
+
+// outerAssign gives what spOuterAssign adds to level `level`: `top` goes before anything the level reads, `mid`
+// after its first probes and before its own lets.
+//
+// DIRECT (the level is the body of an own-scope construct): after the probes have shown the outer values, assign
+// x (let-bound one level up, or bound by an outer construct), g and len (context data), y (let-bound two levels
+// up) - whichever is not bound by the construct just entered; g and len only if no loop further in assigns them -, g from its own outer value, len inside an if
+// block (no scope), and probe them. The write is the construct's own, exactly like a let: so the reference is the
+// same program with let.
+//
+// UNDER A FOR (the level is the body of a loop, and further out there is an own-scope construct S with nothing
+// but single-pass loops in between): assign g and len, which no frame from S inwards binds, as the FIRST thing of
+// every pass, and probe them. Inside the pass the new value is read; once S has ended the outer one is back.
+// Whether the loop's write is still seen in S after the loop is not said (it may be the loop's or S's), so those
+// names are not probed between the end of the loop and the end of S, and a recursive function (which probes at
+// its end) is not taken as S.
+// underFor: level is a loop body with an own-scope construct kinds[s] further out and single-pass loops only in between; else -1
+func (b *builder) underFor(level int) int {
+	if level < 2 || ownScope(b.kinds[level-1]) {
+		return -1
+	}
+	for i := level - 2; i >= 0; i-- {
+		if ownScope(b.kinds[i]) {
+			if b.kinds[i] == kFnRec {
+				return -1
+			}
+			return i
+		}
+		// a loop in between must run its body once, or its second pass would read what the first one's inner loop wrote
+		if b.kinds[i] == kForTwo || b.repeat[i] {
+			return -1
+		}
+	}
+	return -1
+}
+
+func (b *builder) outerAssign(level int) (top, mid []model.Node) {
+	if b.sp&spOuterAssign == 0 || level == 0 {
+		return
+	}
+	lv := fmt.Sprintf("L%d", level)
+	entered := b.kinds[level-1]
+	bound := b.binds[level-1]
+	if ownScope(entered) {
+		cand := []string{"x", "g", "len"}
+		if level >= 2 {
+			cand = append(cand, "y")
+		}
+		// g and len are left to a loop further in, if there is one that assigns them: they must not be bound here then
+		later := false
+		for l := level + 1; l <= len(b.kinds); l++ {
+			later = later || b.underFor(l) == level-1
+		}
+		var done []string
+		for _, n := range cand {
+			if n == bound || (later && (n == "g" || n == "len")) {
+				continue
+			}
+			switch n {
+			case "g":
+				mid = append(mid, b.set("g", model.Bin{Op: "+", L: model.Var{Name: "g"}, R: lit("!A" + lv)}))
+			case "len":
+				mid = append(mid, model.EmitIf{If: &model.If{Cond: model.Var{Name: "g"}, Then: []model.Node{b.set("len", lit("len!A"+lv))}}})
+			default:
+				mid = append(mid, b.set(n, lit(n+"!A"+lv)))
+			}
+			done = append(done, n)
+		}
+		mid = append(mid, T("{set:"))
+		mid = append(mid, probes(done...)...)
+		mid = append(mid, T("}"))
+		return
+	}
+	s := b.underFor(level)
+	if s < 0 {
+		return
+	}
+	names := []string{"g", "len"}
+	for _, n := range names {
+		top = append(top, b.set(n, lit(n+"!F"+lv)))
+	}
+	top = append(top, T("{set:"))
+	top = append(top, probes(names...)...)
+	top = append(top, T("}"))
+	for l := s + 1; l < level; l++ {
+		b.skipAfter[l] = names
+	}
+	return
 }
 
 func (b *builder) next(prefix string) string {
@@ -520,6 +699,8 @@ func (b *builder) nest(kinds []int, level int, binds []string) []model.Node {
 	lv := fmt.Sprintf("L%d", level)
 	var out []model.Node
 	out = append(out, T(fmt.Sprintf("<%d:", level)))
+	oaTop, oaMid := b.outerAssign(level)
+	out = append(out, oaTop...)
 	if b.replay && level == 0 {
 		out = append(out, model.ContentFor{Name: "topblock", Body: []model.Node{T("(stored)")}})
 	}
@@ -533,6 +714,7 @@ func (b *builder) nest(kinds []int, level int, binds []string) []model.Node {
 		// replaying a block stored in an OUTER scope must not disturb where this scope's later bindings go
 		out = append(out, model.EmitContentOf{Name: "topblock", Data: []model.KV{}})
 	}
+	out = append(out, oaMid...)
 	// shadows / rebinds x at this level
 	if b.sp&spChain != 0 && level > 0 && !b.letsFirst {
 		out = append(out, chain("x", "~"+lv))
@@ -565,7 +747,15 @@ func (b *builder) nest(kinds []int, level int, binds []string) []model.Node {
 		}
 		out = append(out, cons...)
 		out = append(out, T("|after:"))
-		out = append(out, probes(allNames...)...)
+		for _, n := range allNames {
+			open := false
+			for _, sk := range b.skipAfter[level] {
+				open = open || sk == n
+			}
+			if !open {
+				out = append(out, probe(n))
+			}
+		}
 		if b.sp&spIfLet != 0 {
 			out = append(out, probe(fmt.Sprintf("q%d", level+1)))
 		}
@@ -591,19 +781,35 @@ func kindLabel(kinds []int, repeat map[int]bool) string {
 
 // nestCase builds and runs one cell of the exhaustive matrices.
 func nestCase(r *vk.Run, kinds []int, pat []string, mask int, replay bool, sp spice, class string, again bool) *vk.Fail {
-	b := &builder{partials: map[string][]model.Node{}, repeat: map[int]bool{}, replay: replay, sp: sp}
-	for l, k := range kinds {
-		b.repeat[l] = mask&(1<<l) != 0
-		if k == kForTwo {
-			b.letsFirst = true
+	build := func(asLet bool) (*builder, []model.Node) {
+		b := &builder{partials: map[string][]model.Node{}, repeat: map[int]bool{}, replay: replay, sp: sp,
+			kinds: kinds, binds: pat[:len(kinds)], asLet: asLet, skipAfter: map[int][]string{}}
+		for l, k := range kinds {
+			b.repeat[l] = mask&(1<<l) != 0
+			if k == kForTwo {
+				b.letsFirst = true
+			}
+			if pat[l] == "x" && (k == kForKey || k == kForIterKey) {
+				b.sp &^= spChain // x is then a number inside
+			}
 		}
-		if pat[l] == "x" && (k == kForKey || k == kForIterKey) {
-			b.sp &^= spChain // x is then a number inside
-		}
+		return b, b.nest(kinds, 0, pat[:len(kinds)])
 	}
-	prog := b.nest(kinds, 0, pat[:len(kinds)])
-	return run(r, prog, b.partials, class+"/"+kindLabel(kinds, b.repeat), opts{bare: b.sp&spBare != 0, again: again})
+	b, prog := build(false)
+	o := opts{bare: b.sp&spBare != 0, again: again}
+	if sp&spOuterAssign != 0 {
+		if b.nOuter == 0 {
+			// no level of this nesting is a scope of its own above which a name is bound (loops only): nothing to ask
+			r.Exclude("outer assignment: no scope of its own in this nesting")
+			return nil
+		}
+		ab, alt := build(true)
+		o.alt, o.altParts, o.strict, o.why = alt, ab.partials, true, outerWhy
+	}
+	return run(r, prog, b.partials, class+"/"+kindLabel(kinds, b.repeat), o)
 }
+
+const outerWhy = "the same program with every bare assignment to a name bound outside the function / partial / stored block / helper block written as let"
 
 // ---- failing function as a condition ----------------------------------------------------------
 
@@ -798,6 +1004,11 @@ type rgen struct {
 	replay  bool
 	outerFn bool
 	qnames  []string // names let inside an if block inside some construct: read at the very end
+	// pair: also draw bare assignments to names bound further out (directly in the body of a construct with a scope
+	// of its own); the reference program, built alongside with builder ab, spells them as let
+	pair   bool
+	ab     *builder
+	nOuter int
 }
 
 func sorted(m map[string]bool) []string {
@@ -813,12 +1024,43 @@ func sorted(m map[string]bool) []string {
 
 // nodes draws a block. vis: pool names known to hold a string here; top: the block is the template itself.
 func (g *rgen) nodes(depth int, vis map[string]bool, top bool) []model.Node {
+	out, _ := g.nodes2(depth, vis, top, false, map[string]bool{"g": true, "len": true})
+	return out
+}
+
+// nodes2 also gives the reference block (see pair). own: the block is directly the body of a construct with a
+// scope of its own; sure: names that are certainly bound when the block runs (context data, names let-bound
+// earlier in an enclosing block).
+func (g *rgen) nodes2(depth int, vis map[string]bool, top, own bool, sure map[string]bool) (out, alt []model.Node) {
 	t := g.t
-	var out []model.Node
 	local := map[string]bool{}
+	hi := 15
+	if g.pair {
+		hi = 23
+	}
 	cnt := rapid.IntRange(1, 5).Draw(t, "cnt")
 	for i := 0; i < cnt; i++ {
-		switch k := rapid.IntRange(0, 15).Draw(t, "k"); {
+		alt = append(alt, out[len(alt):]...) // what the cases below add to out alone is the same on both sides
+		switch k := rapid.IntRange(0, hi).Draw(t, "k"); {
+		case k >= 16 && own: // bare assignment to a name bound further out
+			var cand []string
+			for _, n := range sorted(sure) {
+				if !local[n] {
+					cand = append(cand, n)
+				}
+			}
+			if len(cand) > 0 {
+				g.n++
+				g.nOuter++
+				n := rapid.SampledFrom(cand).Draw(t, "on")
+				v := lit(fmt.Sprintf("OA%d", g.n))
+				out = append(out, model.Code{S: model.AssignS{Name: n, X: v}}, probe(n))
+				alt = append(alt, letx(n, v), probe(n))
+				local[n] = true
+				if n != "g" && n != "len" {
+					vis[n] = true
+				}
+			}
 		case k <= 2:
 			out = append(out, probe(rapid.SampledFrom(allNames).Draw(t, "pn")))
 		case k <= 5:
@@ -861,7 +1103,12 @@ func (g *rgen) nodes(depth int, vis map[string]bool, top bool) []model.Node {
 			if depth > 0 {
 				g.n++
 				bind := rapid.SampledFrom(append([]string{""}, names...)).Draw(t, "bind")
-				kind := rapid.IntRange(0, nKinds-1).Draw(t, "kind")
+				kind := 0
+				if k >= 16 { // pair: no scope of its own here to assign in, so open one
+					kind = rapid.SampledFrom(ownKinds).Draw(t, "okind")
+				} else {
+					kind = rapid.IntRange(0, nKinds-1).Draw(t, "kind")
+				}
 				inner := map[string]bool{}
 				for n, v := range vis {
 					inner[n] = v
@@ -869,26 +1116,46 @@ func (g *rgen) nodes(depth int, vis map[string]bool, top bool) []model.Node {
 				if bind != "" {
 					inner[bind] = kind != kForKey && kind != kForIterKey
 				}
-				body := g.nodes(depth-1, inner, false)
+				isure := map[string]bool{}
+				for n := range sure {
+					isure[n] = true
+				}
+				for n := range local {
+					isure[n] = true
+				}
+				body, abody := g.nodes2(depth-1, inner, false, ownScope(kind), isure)
 				if kind == kForTwo {
-					body = prelet(body)
+					body, abody = prelet(body), prelet(abody)
 				}
 				out = append(out, T("("))
-				cons := g.b.construct(kind, bind, fmt.Sprintf("B%d", g.n), body)
+				alt = append(alt, T("("))
+				val := fmt.Sprintf("B%d", g.n)
+				cons := g.b.construct(kind, bind, val, body)
+				var acons []model.Node
+				if g.ab != nil {
+					acons = g.ab.construct(kind, bind, val, abody)
+				}
 				if rapid.IntRange(0, 2).Draw(t, "twice") == 0 {
 					cons = g.b.twice(cons)
+					if g.ab != nil {
+						acons = g.ab.twice(acons)
+					}
 				}
 				out = append(out, cons...)
 				out = append(out, T(")"))
+				alt = append(alt, acons...)
+				alt = append(alt, T(")"))
 			}
 		}
 	}
+	alt = append(alt, out[len(alt):]...)
 	// always end a block by probing every name
 	out = append(out, probes(allNames...)...)
-	return out
+	alt = append(alt, probes(allNames...)...)
+	return out, alt
 }
 
-const rule = "scope constructs {partial and contentFor / contentOf whose data hash is HELD in a variable, used by two calls and read back afterwards, one held hash handed to a partial on two loop passes; for, user function defined and called on the spot, partial with data, contentFor + contentOf with data in one scope (the stored block, and likewise the partial, is used a second time WITHOUT data: nothing the first use was given or let-bound may be visible), block helper rendering its block with BlockWith on a fresh child context} and 18 further kinds of them {for binding the name as its KEY variable; for over a hash literal binding the name as key / as value; for over an Iterator, name as value / as key; for over [] and over nil (no iteration); for of TWO iterations binding the name; for in a silent tag; function ending in return; function returning from inside an if with dead lets after it; function of two parameters; function defined once and CALLED TWICE with other arguments; function that calls itself two deep and probes every name again after the inner call; partial whose data value reads a variable of the caller; contentOf for a name nothing stores, rendering its own default block with the data, and again without; partial with data and a layout that lets x, v, k and prints only the partial; for over the result of a function that lets x and v before it returns the collection}; names {x, y, v, p, k} bound by let (fresh and shadowing), and through the construct itself (loop variable / key variable / parameter / data key equal to a name that is let-bound outside); g and len come from the data only (len is also the name of a default helper and must stay the data's value in every scope); probes <%= if (n) { %>[n=<%= n %>]<% } else { %>[n=-]<% } %> for every name before, inside and after each construct. Spices on the fixed pattern: a function defined once at top level and called at every level (it lets x and k before reading them, so definition-site and call-site resolution agree); bare assignment to a name let-bound in the same scope; shadowing lets that read what they shadow (let x = x + \"~L1\"); a let inside an if block inside the scope, read after the scope ended; partial(\"n\") / contentOf(\"n\") spelled without data. (E1) every nesting of 1, 2 and 3 of the five basic constructs (5 + 25 + 125) x 4 binding patterns x every subset of levels whose construct is ENTERED TWICE (wrapped in a two-iteration loop that binds nothing else), with a fixed let/probe pattern at every level; in half of them a block of literal text stored at top level is replayed with contentOf inside every deeper scope before that scope's lets; (E2) each of the 18 further kinds alone, inside and around each basic construct, x 4 binding patterns x every subset of levels entered twice; (E3) each spice alone and all together x every nesting of 1 and 2 of all 23 kinds x 4 binding patterns; (F) a function that lets x and y and then fails on an unknown identifier - directly or inside any of the 21 constructs that run their body - called as the condition f() / !f() / f() == nil / f() != nil, at top level, in a for body, in a function body and in a loop of two iterations: the statements do not say whether that failure is tolerated, so the render may fail, and IF it succeeds its output must be that of the program with the condition written out as the literal a nil call gives; (R) random let/probe/construct sequences nested to depth 3 over all 23 kinds with the spices as further statements; (S) ten bodies whose own meaning the statements leave open (return inside a loop, in a nested loop, from a nested if; reading or shadowing what the last iteration bound; continue and break inside silent ifs, also after text; a function that returns from a loop, called twice; a block stored and used in every iteration; loops that never run) inside a SILENT construct - <% let r = f(..) %>, <% f(..) %>, a silent for of one and of two iterations - at top level, in a for body, in a function body and in a loop of two iterations: the render may fail, and IF it succeeds its output must be that of the program without the silent construct. In every phase a quarter of the cases parse their template once and execute it twice on fresh contexts; both executions must agree. Oracle: environment-chain reference interpreter (each construct is a child scope; lets and bound names vanish when it ends; outer names stay readable and unchanged; top-level let persists). Non-trivial: every case nests at least one construct (distinct by template + partial texts)."
+const rule = "scope constructs {partial and contentFor / contentOf whose data hash is HELD in a variable, used by two calls and read back afterwards, one held hash handed to a partial on two loop passes; for, user function defined and called on the spot, partial with data, contentFor + contentOf with data in one scope (the stored block, and likewise the partial, is used a second time WITHOUT data: nothing the first use was given or let-bound may be visible), block helper rendering its block with BlockWith on a fresh child context} and 18 further kinds of them {for binding the name as its KEY variable; for over a hash literal binding the name as key / as value; for over an Iterator, name as value / as key; for over [] and over nil (no iteration); for of TWO iterations binding the name; for in a silent tag; function ending in return; function returning from inside an if with dead lets after it; function of two parameters; function defined once and CALLED TWICE with other arguments; function that calls itself two deep and probes every name again after the inner call; partial whose data value reads a variable of the caller; contentOf for a name nothing stores, rendering its own default block with the data, and again without; partial with data and a layout that lets x, v, k and prints only the partial; for over the result of a function that lets x and v before it returns the collection}; names {x, y, v, p, k} bound by let (fresh and shadowing), and through the construct itself (loop variable / key variable / parameter / data key equal to a name that is let-bound outside); g and len come from the data only (len is also the name of a default helper and must stay the data's value in every scope); probes <%= if (n) { %>[n=<%= n %>]<% } else { %>[n=-]<% } %> for every name before, inside and after each construct. Spices on the fixed pattern: a function defined once at top level and called at every level (it lets x and k before reading them, so definition-site and call-site resolution agree); bare assignment to a name let-bound in the same scope; shadowing lets that read what they shadow (let x = x + \"~L1\"); a let inside an if block inside the scope, read after the scope ended; partial(\"n\") / contentOf(\"n\") spelled without data. (E1) every nesting of 1, 2 and 3 of the five basic constructs (5 + 25 + 125) x 4 binding patterns x every subset of levels whose construct is ENTERED TWICE (wrapped in a two-iteration loop that binds nothing else), with a fixed let/probe pattern at every level; in half of them a block of literal text stored at top level is replayed with contentOf inside every deeper scope before that scope's lets; (E2) each of the 18 further kinds alone, inside and around each basic construct, x 4 binding patterns x every subset of levels entered twice; (E3) each spice alone and all together x every nesting of 1 and 2 of all 23 kinds x 4 binding patterns; (E4) BARE ASSIGNMENT TO NAMES BOUND FURTHER OUT: inside the body of every construct that has a scope of its own (user function in its 6 kinds, partial in its 6 kinds, contentFor / contentOf in its 3 kinds, block helper on a child context) the fixed pattern first probes, then writes `n = v` without let to x (let-bound one level up, or bound there as parameter / data key / loop variable), y (let-bound two levels up), g and len (bound by the context data only) - whichever the construct just entered does not bind itself; g from its own outer value (g = g + ..), len inside an if block (not a scope) - and probes them again, inside and after the construct, also when it is entered twice; and, when a loop of any of the 11 kinds stands inside such a construct S (only single-pass loops in between, S not the recursive function), its body assigns g and len as the first thing of every pass (S then leaves them alone, so that they are bound two or three frames up and in no frame from S inwards): the new value is read in the pass, the old one after S; what S itself sees between the end of the loop and its own end is not probed (the write may be the loop's or S's: not said). Loops directly under the binding frame and nestings of loops only are left out (not said either). Every nesting of 1 and 2 of the 26 kinds that holds such a construct x 4 binding patterns, a sample of depth 3, a third also with the bare / if-let / chain-let shapes. Oracle: the statement makes what is set inside these constructs their own (\"parameters and let-bound names inside a user-defined function, and names set inside a partial or a contentOf/contentFor block with its own data ... leave same-named outer variables unchanged\"; child lookups fall through, writes stay local), so the program must render exactly what the SAME PROGRAM WITH EACH OF THESE ASSIGNMENTS WRITTEN AS let renders under the reference interpreter (kind \"assign\"; no failure tolerated); (RA) the random sequences of (R) with such assignments drawn directly in the bodies of own-scope constructs, to names that are certainly bound there (context data, names let-bound earlier in an enclosing block), same oracle; (F) a function that lets x and y and then fails on an unknown identifier - directly or inside any of the 21 constructs that run their body - called as the condition f() / !f() / f() == nil / f() != nil, at top level, in a for body, in a function body and in a loop of two iterations: the statements do not say whether that failure is tolerated, so the render may fail, and IF it succeeds its output must be that of the program with the condition written out as the literal a nil call gives; (R) random let/probe/construct sequences nested to depth 3 over all 23 kinds with the spices as further statements; (S) ten bodies whose own meaning the statements leave open (return inside a loop, in a nested loop, from a nested if; reading or shadowing what the last iteration bound; continue and break inside silent ifs, also after text; a function that returns from a loop, called twice; a block stored and used in every iteration; loops that never run) inside a SILENT construct - <% let r = f(..) %>, <% f(..) %>, a silent for of one and of two iterations - at top level, in a for body, in a function body and in a loop of two iterations: the render may fail, and IF it succeeds its output must be that of the program without the silent construct. In every phase a quarter of the cases parse their template once and execute it twice on fresh contexts; both executions must agree. Oracle: environment-chain reference interpreter (each construct is a child scope; lets and bound names vanish when it ends; outer names stay readable and unchanged; top-level let persists). Non-trivial: every case nests at least one construct (distinct by template + partial texts)."
 
 func decodeCase(raw json.RawMessage) (c Case, prog []model.Node, parts map[string][]model.Node, alt []model.Node, f *vk.Fail) {
 	if f = vk.Decode(raw, &c); f != nil {
@@ -921,7 +1188,7 @@ func setup(t *testing.T) *vk.Run {
 	r := vk.Start(t, "C09", rule,
 		"loops that bind names run a single iteration, except the two-iteration kind, whose bodies let every name before reading it; constructs are re-entered through a two-iteration wrapper loop that lets nothing itself; reading a name let-bound in an earlier iteration of the same loop is Unspecified in the model",
 		"functions are defined immediately before their call, so lexical and dynamic resolution of free names agree; the one function defined at top level and called from inner scopes reads only what it has bound itself; contentFor and contentOf are used in the same scope",
-		"if blocks and plain Block() helpers are not scopes and are not used as such: a name let inside an if block is read inside that block and after the enclosing construct has ended, never in between; bare assignment is only used on names let-bound in the same scope",
+		"if blocks and plain Block() helpers are not scopes and are not used as such: a name let inside an if block is read inside that block and after the enclosing construct has ended, never in between; bare assignment is used on names let-bound in the same scope, and on names bound further out only inside constructs with a scope of their own (function, partial, stored block, block helper on a child context) or in a loop under one, where the reference is the same program with let; a bare assignment in a loop body directly under the frame that binds the name is never generated (nothing says whose the write is)",
 		"a failing function called as a condition: both a failed render and a render that goes on as if the call gave nil are accepted")
 	r.Replayer("scope", func(raw json.RawMessage) *vk.Fail {
 		c, prog, parts, _, f := decodeCase(raw)
@@ -939,6 +1206,24 @@ func setup(t *testing.T) *vk.Run {
 			return &vk.Fail{Kind: "decode", Msg: "an alt case without alt"}
 		}
 		return run(r, prog, parts, "replay", opts{bare: c.Bare, again: c.Again, alt: alt, why: "alternative program"})
+	})
+	r.Replayer("assign", func(raw json.RawMessage) *vk.Fail {
+		c, prog, parts, alt, f := decodeCase(raw)
+		if f != nil {
+			return f
+		}
+		if alt == nil {
+			return &vk.Fail{Kind: "decode", Msg: "an assign case without alt"}
+		}
+		aparts := map[string][]model.Node{}
+		for n, raw := range c.AltPartials {
+			body, err := model.Decode(raw)
+			if err != nil {
+				return &vk.Fail{Kind: "decode", Msg: err.Error()}
+			}
+			aparts[n] = body
+		}
+		return run(r, prog, parts, "replay", opts{bare: c.Bare, again: c.Again, alt: alt, altParts: aparts, strict: true, why: outerWhy})
 	})
 	return r
 }
@@ -1030,6 +1315,46 @@ func TestProp(t *testing.T) {
 	}
 	flush("5 spices singly and all together x every nesting of 1 and 2 of the 23 kinds x 4 binding patterns (quick: an eighth of the depth-2 cells)", !r.Quick())
 
+	// E4: bare assignments to names bound further out, inside scopes of their own
+	for a := 0; a < nKinds; a++ {
+		for b := -1; b < nKinds; b++ {
+			for c := -1; c < 5; c++ {
+				if c >= 0 && (b < 0 || (a >= 5 && b >= 5)) {
+					continue // depth 3: a basic construct innermost, and at least one more basic construct
+				}
+				kinds := []int{a}
+				if b >= 0 {
+					kinds = append(kinds, b)
+				}
+				if c >= 0 {
+					kinds = append(kinds, c)
+				}
+				own := false
+				for _, k := range kinds {
+					own = own || ownScope(k)
+				}
+				if !own {
+					continue
+				}
+				for pi, pat := range patterns {
+					if r.Quick() && len(kinds) == 2 && (a+b+pi)%2 != 0 {
+						continue
+					}
+					if len(kinds) == 3 && (a+b+c+pi)%r.Pick(16, 2) != 0 {
+						continue
+					}
+					for _, sp := range []spice{spOuterAssign, spOuterAssign | spBare | spIfLet | spChain} {
+						if sp != spOuterAssign && (a+b+c+pi)%3 != 0 {
+							continue
+						}
+						nestCell(kinds, pat, (a+pi)%2*(1<<(len(kinds)-1))+(b+pi+3)%3/2, (a+b+pi)%3 == 0, sp, "outer-assign:"+sp.String())
+					}
+				}
+			}
+		}
+	}
+	flush("bare assignment to names bound further out (let, construct, data) inside every scope of its own, and in loops under one: every nesting of 1 and 2 of the 26 kinds that holds a scope of its own x 4 binding patterns (quick: half of depth 2), a sample of depth 3; a third also with the bare / if-let / chain-let shapes", false)
+
 	// F: a failing function as a condition
 	for form := range forms {
 		for wrap := -1; wrap < nKinds; wrap++ {
@@ -1089,5 +1414,30 @@ func TestProp(t *testing.T) {
 			prog = append([]model.Node{model.ContentFor{Name: "topblock", Body: []model.Node{T("(stored)")}}}, prog...)
 		}
 		return run(r, prog, g.b.partials, "random", opts{bare: bare, again: ag})
+	})
+
+	// RA: the random sequences with bare assignments to names bound further out; reference: the let spelling
+	r.Rapid("random-outer-assign", r.Pick(600, 8000), func(t *rapid.T) *vk.Fail {
+		g := &rgen{t: t, b: &builder{partials: map[string][]model.Node{}}, ab: &builder{partials: map[string][]model.Node{}}, pair: true}
+		g.replay = rapid.Bool().Draw(t, "replay")
+		g.outerFn = rapid.Bool().Draw(t, "outerFn")
+		bare := rapid.IntRange(0, 3).Draw(t, "bare") == 0
+		ag := rapid.IntRange(0, 3).Draw(t, "again") == 0
+		prog, alt := g.nodes2(3, map[string]bool{"g": false}, true, false, map[string]bool{"g": true, "len": true})
+		if g.nOuter == 0 {
+			r.Exclude("outer assignment: none drawn")
+			return nil
+		}
+		for _, q := range g.qnames {
+			prog, alt = append(prog, probe(q)), append(alt, probe(q))
+		}
+		if g.outerFn {
+			prog, alt = append([]model.Node{hfDef()}, prog...), append([]model.Node{hfDef()}, alt...)
+		}
+		if g.replay {
+			cf := model.ContentFor{Name: "topblock", Body: []model.Node{T("(stored)")}}
+			prog, alt = append([]model.Node{cf}, prog...), append([]model.Node{cf}, alt...)
+		}
+		return run(r, prog, g.b.partials, "random-outer-assign", opts{bare: bare, again: ag, alt: alt, altParts: g.ab.partials, strict: true, why: outerWhy})
 	})
 }
